@@ -114,6 +114,7 @@ fn concurrent_delete_expired_never_sweeps_a_live_record() {
         }));
         let _ = sweeper.join().unwrap();
         let created = writer.join().unwrap();
+        println!("VERIF-BOUNDED test=concurrent_delete_expired_never_sweeps_a_live_record evaluations={} bound=round {round} of 4: one sweeper thread against one writer re-creating up to 4000 of 60000 expired ids (schedules chosen by the OS)", created.len());
         rt().block_on(async {
             for id in &created {
                 assert!(s.load(id).await.unwrap().is_some(), "round {round}: a record created with a 1h TTL while delete_expired was running has been swept");
@@ -185,12 +186,17 @@ async fn bounded_search_over_store_histories() {
                 5 | 6 => {
                     log.push(format!("change_id({i} -> {j})"));
                     let r = s.change_id(&ids[i], &ids[j]).await;
-                    match (live.contains_key(&i), live.contains_key(&j)) {
+                    if i == j {
+                        // renaming a record to its own id is not specified by the statement: Ok or DuplicateId when it is live
+                        // (either way the observation below demands that nothing changed), UnknownId when it is not
+                        if live.contains_key(&i) { assert!(matches!(r, Ok(()) | Err(ChangeIdError::DuplicateId(_))), "change_id({i} -> {i}) on a live record — {}", ctx(&log)); }
+                        else { assert!(matches!(r, Err(ChangeIdError::UnknownId(_))), "change_id of an absent/expired record must fail with UnknownId — {}", ctx(&log)); }
+                    } else { match (live.contains_key(&i), live.contains_key(&j)) {
                         (true, false) => { assert!(r.is_ok(), "change_id of a live record onto a free id must succeed — {}", ctx(&log)); let m = live.remove(&i).unwrap(); live.insert(j, m); }
                         (false, false) => assert!(matches!(r, Err(ChangeIdError::UnknownId(_))), "change_id of an absent/expired record must fail with UnknownId — {}", ctx(&log)),
                         (true, true) => assert!(matches!(r, Err(ChangeIdError::DuplicateId(_))), "change_id onto a live id must fail with DuplicateId — {}", ctx(&log)),
                         (false, true) => assert!(matches!(r, Err(ChangeIdError::DuplicateId(_)) | Err(ChangeIdError::UnknownId(_))), "change_id must fail — {}", ctx(&log)),
-                    }
+                    } }
                 }
                 _ => {
                     let batch = [None, NonZeroUsize::new(1), NonZeroUsize::new(2), NonZeroUsize::new(5)][rnd(4) as usize];
@@ -220,4 +226,5 @@ async fn bounded_search_over_store_histories() {
             }
         }
     }
+    println!("VERIF-BOUNDED test=bounded_search_over_store_histories evaluations={n_histories} bound=pseudo-random histories (fixed seed) of 14 store operations over 3 ids, TTL in {{0, 5 s, 1 h}}, batch sizes {{none, 1, 2, 5}}, every id observed after every operation");
 }
